@@ -29,6 +29,20 @@ ValOf(e) == IF Has(e, "val") THEN e.val ELSE <<>>
 CaseOf(e)   == Cases[e.cid - CidBase]
 SchemaOf(c) == Schemas[c.si].defs
 TypeOf(c)   == R(c.root)
+
+\* a value with every date leaf replaced by zero (structure and everything else kept)
+Zero8 == [i \in 1..8 |-> 0]
+RECURSIVE BlankDates(_, _, _)
+BlankDates(S, t, v) ==
+  CASE t.k = "p" -> IF t.p = "date" THEN Zero8 ELSE v
+    [] t.k = "a" -> [i \in 1..Len(v) |-> BlankDates(S, t.e, v[i])]
+    [] t.k = "m" -> [i \in 1..Len(v) |-> << (IF t.key = "date" THEN Zero8 ELSE v[i][1]), BlankDates(S, t.v, v[i][2]) >>]
+    [] t.k = "r" ->
+        LET d == Def(S, t.n) IN
+        CASE d.kind = "enum" -> v
+          [] d.kind = "struct" -> [i \in 1..Len(d.fields) |-> BlankDates(S, d.fields[i].t, v[i])]
+          [] d.kind = "message" -> [i \in 1..Len(v) |-> IF MsgHas(d, v[i][1]) THEN << v[i][1], BlankDates(S, MsgField(d, v[i][1]).t, v[i][2]) >> ELSE v[i]]
+          [] d.kind = "union" -> IF Len(v) = 2 /\ UnionHas(d, v[1]) THEN << v[1], BlankDates(S, R(Branch(d, v[1]).n), v[2]) >> ELSE v
 InOf(e)     == IF Has(e, "in") THEN e.in ELSE CaseOf(e).enc
 
 \* out is a conformant encoding of v (any order of map entries)
@@ -237,9 +251,13 @@ JudgeC04(e) ==
               <<e.res = "nil", e.api \o " of a newer version's bytes under the older schema: " \o e.res>>,
               <<e.res # "nil" \/ ValOf(e) = c.want, e.api \o " under the older schema does not yield the value restricted to the fields it knows">>,
               <<e.res # "nil" \/ ~Has(e, "consumed") \/ e.consumed = Len(c.enc), "DecodeBebop under the older schema consumed a different number of bytes">> >>)
+            \* the as-is model's prediction: the same value (dates apart: a decoder that has lost its place reads tick
+            \* counts no time.Time can hold, and what comes back for them is arithmetic overflow, not modelled), the same
+            \* failure, or - where the model sees an allocation made from a misread count - the runaway it leads to
             asisSame == e.api = "UnmarshalBebop" /\ "advance_by_decoded_size" \in Devs /\
-                        \/ (c.asis.o = "ok" /\ e.res = "nil" /\ ValOf(e) = Canon(S, t, c.asis.v))
+                        \/ (c.asis.o = "ok" /\ e.res = "nil" /\ BlankDates(S, t, ValOf(e)) = BlankDates(S, t, Canon(S, t, c.asis.v)))
                         \/ (c.asis.o \in {"err", "panic"} /\ e.res = "err")
+                        \/ (c.asis.big # "" /\ (e.res \in {"oom", "timeout"} \/ e.big))
         IN IF ideal.v = "OK" THEN ideal
            ELSE IF asisSame THEN Known("advance_by_decoded_size", ideal.why)
            ELSE ideal
